@@ -380,7 +380,7 @@ impl<'a, 'b> Script<'a, 'b> {
             return;
         }
         tokio::time::sleep(us(700)).await;
-        let kind = self.side_next(12);
+        let kind = self.side_next(13);
         let pidx = self.side_next(self.puppets.len() as u64) as usize;
         let p = self.puppets[pidx];
         let flip = |sig: &crypto::Signature, bit: usize| {
@@ -517,6 +517,13 @@ impl<'a, 'b> Script<'a, 'b> {
                     }
                     None => ("none", None),
                 }
+            }
+            11 => {
+                // a correctly signed timeout for the current round whose high QC (single signer) is of
+                // the round just below: "stale" for round advancement, but still a candidate high QC
+                // for a node that entered its round through a TC
+                let fake = self.w.qc_for(sha512_32(&cur.to_le_bytes()), cur.saturating_sub(1).max(1), &[p]);
+                ("timeout-valid-signature-forged-qc-of-previous-round", Some(ConsensusMessage::Timeout(self.w.timeout(p, cur, fake))))
             }
             10 => {
                 // a timeout whose high QC claims the genesis hash under a later round, without votes
@@ -1072,6 +1079,49 @@ impl<'a, 'b> Script<'a, 'b> {
         self.note(json!({"step": "wrong-leader-proposal", "round": round, "stale_tc_of_round": decoy}));
         self.stat("wrong-leader");
         self.send_to_sut(author, &ConsensusMessage::Propose(b)).await;
+    }
+
+    /// A proposal that names the round's leader as author but is signed by somebody else, with a valid
+    /// QC and ONE payload digest whose batch the node lacks; the batch arrives a little later. A node
+    /// that looks at the payload before it verifies the block parks it and resumes it unverified.
+    async fn unsigned_proposal_with_late_batch(&mut self) {
+        self.absorb();
+        let round = self.cur;
+        let author = self.w.leader(round);
+        if !self.puppets.contains(&author) {
+            return self.advance(false).await;
+        }
+        let parent = if self.tip.is_none() { genesis_digest() } else { self.sound_tip() };
+        let parent_round = self.round_of(&parent);
+        if parent_round + 1 != round && !(parent == genesis_digest() && round == 1) {
+            return self.advance(false).await;
+        }
+        let qc = self.qc_of(&parent);
+        self.batch_counter += 1;
+        let txs: Vec<Vec<u8>> = vec![vec![self.batch_counter as u8, 0xBA, 0xD5, 1, 9]];
+        let bytes = bincode::serialize(&MempoolMessage::Batch(txs)).unwrap();
+        let d = sha512_32(&bytes);
+        self.batches.insert(d.clone(), bytes.clone());
+        let signer = *self.puppets.iter().find(|p| **p != author).unwrap_or(&author);
+        let mut b = self.w.block(author, round, qc, None, vec![d.clone()]);
+        // somebody else's signature over the same digest (or a flipped bit when there is nobody else)
+        if signer != author {
+            b.signature = self.w.sign(signer, &refvalid::block_digest(&b));
+        } else {
+            let mut raw = refvalid::sig_bytes(&b.signature);
+            raw[5] ^= 0x10;
+            b.signature = refvalid::sig_from_bytes(&raw);
+        }
+        self.mark_forged(&b);
+        self.register(&b);
+        self.note(json!({"step": "unsigned-proposal-with-late-batch", "round": round}));
+        self.stat("unsigned-proposal-with-late-batch");
+        self.send_to_sut(author, &ConsensusMessage::Propose(b)).await;
+        let delay = self.t.range(2, 20);
+        tokio::time::sleep(ms(delay)).await;
+        let from = *self.t.pick(&self.puppets.clone());
+        let sut = self.sut;
+        let _ = self.conns.mempool(from, sut, bytes).await;
     }
 
     /// A proposal by the legitimate leader of its round whose QC is forged: it names a real block the
@@ -1749,7 +1799,13 @@ pub fn run_solo(case: &Case, profile: Profile, knobs: &Knobs) -> SoloRun {
                 8 => s.sync_probe().await,
                 9 => s.serve_requests(false).await,
                 10 => s.advance(true).await,
-                _ => s.forged_cert_proposal().await,
+                _ => {
+                    if s.t.chance(1, 4) {
+                        s.unsigned_proposal_with_late_batch().await
+                    } else {
+                        s.forged_cert_proposal().await
+                    }
+                }
             }
             s.injection_point().await;
             s.pause().await;
